@@ -64,6 +64,10 @@ CHECKS = {
             "DESIGN.md §3 C20",
             "For scheme x (E,B) x every L <= 3EB+2 x transfer count 1..2 x interleave, a real Sender fed by a harness stream whose every read size is an explorer choice among {everything, 1, 2, E+1} is explored with at most 2 (quick) / 3 (thorough) non-default answers, plus six fixed patterns (1-byte, 2-byte, E+1, alternating chunks, a real File, BufReader<File> with a 3-byte buffer); the complete packet sequence (both transfers) must be byte-identical to the same Sender fed the same bytes as a buffer.",
             "Trusted: EXT_TIME switched off for the comparison; read-size alphabet and deviation bound."),
+    "C16": ("model_checking", "exhaustive enumeration of every join offset of recorded real carousel sessions, suffix pushed into the real receiver", "seqx",
+            "DESIGN.md §3 C16",
+            "Real carousel sessions (scheme x 1..3 objects incl. an empty one x in-band / FDT-only OTI+CENC x cenc x delay / interval carousel x publish mode x single- and multi-packet FDT) are recorded over four cycles; for every packet boundary of the first cycle (mid-FDT, mid-block, between objects, between cycles) the stream from there to the end of the second further full cycle is pushed into a fresh receiver, which must complete every object byte-exactly.",
+            "Trusted: the definition of a cycle (everything emitted at one poll); no loss after the join."),
 }
 
 NOT_YET = {}
